@@ -538,7 +538,7 @@ def run_c13(ctx):
         blks = arm_blocks(ev, dom, tgt)
         rec = sorted([(b, tt) for b, tt in ev.calls() if b in blks and cname(prog, tt) == ev.name], key=lambda x: len(dom[x[0]]))
         fb = [(b, tt) for b, tt in ev.calls() if b in blks and cname(prog, tt).endswith("Value::from_bool")]
-        ok = len(rec) == 2 and len(fb) == 2
+        ok = len(rec) == 2 and len(fb) in (1, 2)
         detail = ""
         if ok:
             second = rec[1][0]
@@ -547,7 +547,18 @@ def run_c13(ctx):
             want_truth = (name == "And")
             ok = any(truth is want_truth for e, truth in tb)
             consts = [tt["args"][0].get("int") for b, tt in fb if tt["args"][0].get("k") == "const"]
-            ok = ok and consts == [0 if name == "And" else 1]
+            # `from_bool(a && b)`: the constant of the short-circuit edge is assigned to the local that from_bool receives
+            from ..flow import derived_locals
+            for b, tt in fb:
+                a0 = tt["args"][0]
+                if a0.get("pl") and not a0["pl"]["p"]:
+                    tgt = a0["pl"]["l"]
+                    for bb in blks:
+                        for st in ev.blocks[bb]["stmts"]:
+                            o = st["rhs"].get("ops", [{}])[0] if st["rhs"]["rv"] == "use" else {}
+                            if o.get("k") == "const" and "int" in o and not st["lhs"]["p"] and tgt in derived_locals(ev, {st["lhs"]["l"]}):
+                                consts.append(o["int"])
+            ok = ok and sorted(set(consts)) == [0 if name == "And" else 1]
             detail = "second operand under to_bool(left) == %s; constant result %s" % (want_truth, consts)
         ctx.check(ok, "SHORT", "Ast::%s" % name, detail,
                   "Ast::%s does not have the documented short-circuit shape (%d recursive evals, %d from_bool; %s)" % (name, len(rec), len(fb), detail),
@@ -577,13 +588,26 @@ def op_typed(ctx, rule="OP-TYPED"):
                     continue
                 n += 1
                 want = ("==", 1) if r["variant"] == "Int" else ("==", 2)
-                ok = facts.get("discr(tuple{p2,p3}.0)") == want and facts.get("discr(tuple{p2,p3}.1)") == want
+                ok = facts.get("discr(p2)") == want and facts.get("discr(p3)") == want
                 if r["variant"] == "Str":
                     ok = ok and vs.get(arm[1]) == "Add"
                 ctx.check(ok, rule, "%s arm: %s result needs two %s operands" % (vs.get(arm[1]), r["variant"], r["variant"]), "",
                           "BinOp::%s produces a %s result although not both operands are known to be %s (facts %s): operands of the wrong type must give null" % (
-                              vs.get(arm[1]), r["variant"], r["variant"], {k: v for k, v in facts.items() if k.startswith("discr(tuple")}), f.loc(s["sp"]), fn=f.name,
+                              vs.get(arm[1]), r["variant"], r["variant"], {k: v for k, v in facts.items() if k in ("discr(p2)", "discr(p3)")}), f.loc(s["sp"]), fn=f.name,
                           key="%s|%s|%s" % (rule, vs.get(arm[1]), r["variant"]))
+    # the same result built through the constructor passed as a function (`checked_shl(..).map_or(Value::Null, Value::Int)`)
+    for b, t in f.calls():
+        ctor = [a for a in t["args"] if a.get("k") == "const" and (a.get("fn") or "").endswith("value::Value::Int")]
+        if not ctor:
+            continue
+        facts = {e: tr for (e, tr, g) in S.bool_facts_at(b)}
+        arm = facts.get("discr(*p1)")
+        if not arm or arm[1] not in arith:
+            continue
+        n += 1
+        ok = facts.get("discr(p2)") == ("==", 1) and facts.get("discr(p3)") == ("==", 1)
+        ctx.check(ok, rule, "%s arm: Int result needs two Int operands" % vs.get(arm[1]), "", "BinOp::%s produces an Int result (through the Value::Int constructor) although not both "
+                  "operands are known to be Int" % vs.get(arm[1]), f.loc(t["sp"]), fn=f.name, key="%s|%s|Int" % (rule, vs.get(arm[1])))
     ctx.floor(rule, "typed results in BinOp::eval", n, 10)
     g = prog.fn("msi::internal::expr::UnOp::eval")
     Sg = Sym(prog, g)
@@ -603,7 +627,7 @@ def op_typed(ctx, rule="OP-TYPED"):
         Sh = Sym(prog, h)
         built = sorted({s["rhs"]["variant"] for bl in h.blocks if not bl["cleanup"] for s in bl["stmts"] if s["rhs"]["rv"] == "agg" and (s["rhs"].get("adt") or "").endswith("expr::Ast")})
         sws = sorted({Sh.val(bl["term"]["discr"]) for bl in h.blocks if not bl["cleanup"] and bl["term"]["t"] == "switch"})
-        okd = all(re.fullmatch(r"discr\((p2|tuple\{p2,p3\}\.[01])\)", x) or x.startswith("discr(call@") or re.fullmatch(r"_\d+", x) for x in sws)
+        okd = all(re.fullmatch(r"discr\((p2|p3|tuple\{p2,p3\}\.[01])\)", x) or x.startswith("discr(call@") or re.fullmatch(r"_\d+", x) for x in sws)
         cmpc = [short(cname(prog, t)) for b, t in h.calls() if re.search(r"PartialEq|PartialOrd", t.get("callee") or "")]
         ctx.check(built == sorted(["Literal", wrap]) and okd and not cmpc, rule, "%s builds Literal(eval(..)) or %s(..) only" % (short(folder), wrap), "builds %s" % built,
                   "%s builds %s, branches on %s and compares with %s: constructors must only fold literals or wrap their operands (any other simplification makes built and lazily "
